@@ -189,6 +189,7 @@ type Opts struct {
 	SkipTypes  map[reflect.Type]bool // field types left untouched
 	SkipFields map[string]bool       // field names (Type.Field) left untouched
 	Int3Fields map[string]bool       // int32 fields carried in 24 bits (Type.Field)
+	NoZeroBias bool                  // do not leave one scalar field in five at its zero value
 }
 
 // Fill assigns generated values to every settable field reachable from v (a pointer).
@@ -312,6 +313,15 @@ func fill(v reflect.Value, s *Stream, o *Opts, depth int) {
 			if o.Int3Fields[name] && f.Kind() == reflect.Int32 {
 				f.SetInt(int64(int32(uint32(s.Int64())<<8) >> 8))
 				continue
+			}
+			// one scalar / string field in five keeps its zero value: optional sections, "unset" markers and omitted
+			// tails depend on particular fields being zero TOGETHER, which independent random values almost never are
+			switch f.Kind() {
+			case reflect.Int8, reflect.Int16, reflect.Int32, reflect.Int64, reflect.Int, reflect.String, reflect.Float32, reflect.Float64, reflect.Bool:
+				if !o.NoZeroBias && s.Intn(5) == 0 {
+					f.Set(reflect.Zero(f.Type()))
+					continue
+				}
 			}
 			fill(f, s, o, depth+1)
 		}
